@@ -9,6 +9,7 @@ import (
 	"errors"
 	"fmt"
 	"io"
+	"math"
 	"os"
 	"sort"
 	"strconv"
@@ -444,6 +445,11 @@ func builtinCopyFunc(arg Object) Object {
 	return arg
 }
 
+// maxRepeatLen is the maximum length of the value created by the repeat
+// builtin. A longer result cannot be allocated (the Go runtime panics while
+// making it), so it is reported as an error instead.
+const maxRepeatLen = math.MaxInt32
+
 func builtinRepeatFunc(arg Object, count int) (ret Object, err error) {
 	if count < 0 {
 		return nil, NewArgumentTypeError(
@@ -453,23 +459,40 @@ func builtinRepeatFunc(arg Object, count int) (ret Object, err error) {
 		)
 	}
 
+	var size int
 	switch v := arg.(type) {
 	case Array:
-		out := make(Array, 0, len(v)*count)
-		for i := 0; i < count; i++ {
-			out = append(out, v...)
+		size = len(v)
+	case String:
+		size = len(v)
+	case Bytes:
+		size = len(v)
+	default:
+		return nil, NewArgumentTypeError(
+			"1st",
+			"array|string|bytes",
+			arg.TypeName(),
+		)
+	}
+	if size > 0 && count > maxRepeatLen/size {
+		return nil, ErrIndexOutOfBounds.NewError(
+			"repeat: result length exceeds " + strconv.Itoa(maxRepeatLen),
+		)
+	}
+
+	switch v := arg.(type) {
+	case Array:
+		out := make(Array, 0, size*count)
+		if size > 0 {
+			for i := 0; i < count; i++ {
+				out = append(out, v...)
+			}
 		}
 		ret = out
 	case String:
 		ret = String(strings.Repeat(string(v), count))
 	case Bytes:
 		ret = Bytes(bytes.Repeat(v, count))
-	default:
-		err = NewArgumentTypeError(
-			"1st",
-			"array|string|bytes",
-			arg.TypeName(),
-		)
 	}
 	return
 }
